@@ -5,10 +5,11 @@ From Coq Require Import List NArith ZArith Bool Arith Lia.
 From ApiFu Require Import Idle.IdleModel Idle.IdleSpec Idle.IdleProofs.
 Import ListNotations.
 
-(** labels the system takes by itself: everything except the two whose enabledness depends on
-    what the abstracted query does (a resolver being invoked, a sibling failure discarding work) *)
+(** labels the system takes by itself: everything except those whose enabledness depends on what
+    the abstracted query does (a resolver being invoked, a sibling failure discarding work) or on
+    the environment (the request context being cancelled) *)
 Definition forced (l : label) : bool :=
-  match l with LCreate _ | LAbandon _ => false | _ => true end.
+  match l with LCreate _ | LAbandon _ | LCancel => false | _ => true end.
 
 Lemma existsb_false_forallb {A} (f : A -> bool) l :
   existsb f l = false -> forallb (fun x => negb (f x)) l = true.
@@ -218,7 +219,7 @@ Qed.
 Definition work (s : state) : nat :=
   2 * sumf (fun w => b2n (st_created s w)) (ids p) + sumf (fun w => b2n (st_taken s w)) (ids p)
   + sumf (fun w => b2n (st_abandoned s w)) (ids p) + sumf (fun w => grank (st_gor s w)) (ids p)
-  + length (st_pend s).
+  + length (st_pend s) + b2n (st_cancelled s).
 
 Definition measure (s : state) : nat := 4 * work s + prank (st_phase s).
 
@@ -248,7 +249,7 @@ Proof. reflexivity. Qed.
 
 Lemma step_decreases s l s' : Inv p s -> step fx p s l = Some s' -> measure s' < measure s.
 Proof.
-  intros IV H. destruct l as [w|w|w| |k its| |w|c|w|w| | |w]; simpl in H.
+  intros IV H. destruct l as [w|w|w| |k its| |w|c|w|w| | |w| ]; simpl in H.
   - (* create *)
     unfold do_create in H. destruct (st_phase s) eqn:PH; try discriminate.
     destruct (lookup p w) as [it|] eqn:L; [|discriminate].
@@ -373,9 +374,12 @@ Proof.
     destruct A as [A1 [A2 ->]].
     pose proof (work_set_gor s w GExited (gor_in_ids s w IV A2)) as W. simpl in W.
     unfold measure. simpl (st_phase _). lia.
+  - (* cancel *)
+    unfold do_cancel in H. destruct (st_cancelled s) eqn:C; [discriminate|]. inversion H; subst s'.
+    unfold measure, work. simpl. rewrite C. simpl. lia.
 Qed.
 
-Lemma measure_init : measure init = 36 * length (p_items p) + 1.
+Lemma measure_init : measure init = 36 * length (p_items p) + 5.
 Proof.
   unfold measure, work. simpl. rewrite !sumf_const. unfold ids. rewrite seq_length. lia.
 Qed.
@@ -390,9 +394,9 @@ Proof.
     pose proof (step_decreases s l s1 IV E). specialize (IH s1 m1 s' IV1 SM1 H). lia.
 Qed.
 
-(** no interleaving is longer than 36 n + 1 steps (n work items): no livelock, no infinite run *)
+(** no interleaving is longer than 36 n + 5 steps (n work items): no livelock, no infinite run *)
 Theorem terminates tr s :
-  run fx p init tr = Some s -> length tr <= 36 * length (p_items p) + 1.
+  run fx p init tr = Some s -> length tr <= 36 * length (p_items p) + 5.
 Proof.
   intro H. pose proof (run_measure tr init mon_init s (inv_init p) (sim_init p) H).
   rewrite measure_init in H0. lia.
@@ -476,7 +480,7 @@ End Live.
 Definition leak_prog : prog :=
   mkProg [mkItem KGo None false (ROk 7)] (fun _ l => map (fun _ => ROk 0) l) (fun _ _ => ROk 0).
 
-Definition leak_trace : list label := [LCreate 0; LAbandon 0; LEnd; LFinish 0; LArrive 0].
+Definition leak_trace : list label := [LCreate 0; LAbandon 0; LEnd; LFinish 0; LArrive 0; LCancel].
 
 Lemma leak_prog_wf : wf_items leak_prog = true.
 Proof. reflexivity. Qed.
@@ -491,7 +495,7 @@ Theorem leak_before_fix :
             st_gor s 0 = GParked (ROk 7) /\ forall l, step pinned leak_prog s l = None.
 Proof.
   eexists. split; [reflexivity|]. split; [reflexivity|]. split; [reflexivity|].
-  intro l. destruct l as [w|w|w| |k its| |w|c|w|w| | |w]; try reflexivity.
+  intro l. destruct l as [w|w|w| |k its| |w|c|w|w| | |w| ]; try reflexivity.
   - destruct w as [|w]; reflexivity.
   - destruct c as [|c]; reflexivity.
   - destruct w as [|w]; reflexivity.
@@ -546,4 +550,41 @@ Theorem leak_refuted_before_fix :
 Proof.
   destruct leak_before_fix as [s [R [PE [G Q]]]].
   exists leak_prog, leak_trace, s, 0, (ROk 7). repeat split; auto using leak_prog_wf, leak_prog_bf.
+Qed.
+
+(** ** A hand-over that also selects on the request context (seeded change C15-2): after [LCancel] a
+    goroutine that has its result may end without handing it over, while the executor still
+    waits for the promise — the idle handler then blocks in its receive for ever *)
+
+Definition step_ctxdrop (fx : variant) (p : prog) (s : state) (l : label) : option state :=
+  match l with
+  | LExit w =>
+      if st_cancelled s then
+        match st_gor s w with
+        | GFinished _ | GParked _ => Some (set_gor s w GExited)
+        | _ => step fx p s l
+        end
+      else step fx p s l
+  | _ => step fx p s l
+  end.
+
+Fixpoint run_ctxdrop (fx : variant) (p : prog) (s : state) (tr : list label) : option state :=
+  match tr with
+  | [] => Some s
+  | l :: tr' => match step_ctxdrop fx p s l with Some s' => run_ctxdrop fx p s' tr' | None => None end
+  end.
+
+Definition ctxdrop_trace : list label := [LCreate 0; LIdleEnter; LCancel; LFinish 0; LArrive 0; LExit 0].
+
+Theorem completes_refuted_with_ctx_drop :
+  exists p tr s, wf_items p = true /\ bfun_ok p /\ run_ctxdrop current p init tr = Some s /\
+                 st_phase s = PTop /\ live p s 0 = true /\
+                 forall l, forced l = true -> step_ctxdrop current p s l = None.
+Proof.
+  exists leak_prog, ctxdrop_trace. eexists.
+  split; [exact leak_prog_wf|]. split; [exact leak_prog_bf|]. split; [reflexivity|].
+  split; [reflexivity|]. split; [reflexivity|].
+  intros l F. destruct l as [w|w|w| |k its| |w|c|w|w| | |w| ]; try discriminate; try reflexivity.
+  all: try (destruct w as [|w]; reflexivity); try (destruct c as [|c]; reflexivity);
+       try (destruct its; reflexivity).
 Qed.
